@@ -65,7 +65,8 @@ def keyed_matnet(policy):
 def _e(name, env, mk, **kw):
     d = {"name": name, "env": env, "mk": mk, "gp": None, "gpx": {}, "kind": "std", "prep": None, "quick": False,
          "best_of": None,          # None | "multistart" | "multisample"
-         "pad": 1}                 # the only action of a finished row, 1-based (depot / first node / scheduling no-op = action 0)
+         "pad": 1,                 # the only action of a finished row, 1-based (depot / first node / scheduling no-op = action 0)
+         "optional": False}        # known not to run on the pinned tree: covered as soon as it runs, listed in `skipped` while it raises
     d.update(kw)
     return d
 
@@ -89,12 +90,12 @@ def policy_matrix(tier):
         pass
     try:
         from rl4co.models.zoo import PointerNetworkPolicy
-        out.append(_e("PtrNet", "tsp", lambda: PointerNetworkPolicy(env_name="tsp", embed_dim=32, hidden_dim=32)))
+        out.append(_e("PtrNet", "tsp", lambda: PointerNetworkPolicy(env_name="tsp", embed_dim=32, hidden_dim=32), quick=True))
     except Exception:
         pass
     for e in ("tsp", "cvrp"):
         out.append(_e("POMO", e, (lambda e=e: AttentionModelPolicy(env_name=e, normalization="instance", use_graph_context=False, **kw)),
-                      best_of="multistart"))
+                      best_of="multistart", quick=e == "tsp"))
     try:
         from rl4co.models.zoo.symnco.policy import SymNCOPolicy
         out.append(_e("SymNCO", "tsp", lambda: SymNCOPolicy(env_name="tsp", **kw), quick=True))
@@ -107,7 +108,7 @@ def policy_matrix(tier):
         out.append(_e("MatNetFFSP", "ffsp", lambda: MultiStageFFSPPolicy(stage_cnt=2, embed_dim=32, num_heads=2, num_encoder_layers=1,
                                                                           feedforward_hidden=64),
                       kind="ffsp", prep=keyed_matnet, gp={"num_stage": 2, "num_machine": 2, "num_job": 5, "flatten_stages": False},
-                      pad=6))      # the flow shop's no-op is action num_job
+                      pad=6, quick=True))      # the flow shop's no-op is action num_job
     except Exception:
         pass
     try:
@@ -121,12 +122,12 @@ def policy_matrix(tier):
     try:
         from rl4co.models.zoo.mdam.policy import MDAMPolicy
         mk_ = dict(embed_dim=32, num_encoder_layers=2, num_heads=2, num_paths=3)
-        out.append(_e("MDAM", "tsp", lambda: MDAMPolicy(env_name="tsp", **mk_), kind="mdam"))
+        out.append(_e("MDAM", "tsp", lambda: MDAMPolicy(env_name="tsp", **mk_), kind="mdam", quick=True))
         out.append(_e("MDAM", "cvrp", lambda: MDAMPolicy(env_name="cvrp", **mk_), kind="mdam"))
     except Exception:
         pass
     try:
-        from rl4co.models.zoo.l2d.policy import L2DPolicy, L2DPolicy4PPO
+        from rl4co.models.zoo.l2d.policy import L2DAttnPolicy, L2DPolicy, L2DPolicy4PPO
         lk = dict(embed_dim=32, num_encoder_layers=2)
         sched = {"num_jobs": 5, "num_machines": 3}
         out.append(_e("L2D", "fjsp", lambda: L2DPolicy(env_name="fjsp", **lk), gp=sched, quick=True))
@@ -134,6 +135,10 @@ def policy_matrix(tier):
         out.append(_e("L2D(stepwise)", "fjsp", lambda: L2DPolicy(env_name="fjsp", stepwise_encoding=True, **lk), gp=sched))
         out.append(_e("L2D4PPO", "jssp", lambda: L2DPolicy4PPO(env_name="jssp", **lk), gp=sched))
         for e in ("fjsp", "jssp"):
+            # the public L2DAttnPolicy raises in its first decoding step on the pinned tree (see c11_nets.policies); its
+            # encoder and actor are covered through the composition L2DDecoder drives
+            out.append(_e("L2DAttn", e, (lambda e=e: L2DAttnPolicy(env_name=e, embed_dim=32, num_heads=2, num_encoder_layers=2)), gp=sched,
+                          optional=True))
             out.append(_e("L2DAttn(actor in L2DDecoder)", e, (lambda e=e: _l2d_attn_composed(e)), gp=sched))
     except Exception:
         pass
@@ -145,7 +150,7 @@ def policy_matrix(tier):
                                                                         use_graph_context=False, **kw), gpx=mt, prep=trained_like_gates))
     try:
         from rl4co.models.zoo.nargnn.policy import NARGNNPolicy
-        out.append(_e("NARGNN(stub encoder)", "tsp", lambda: NARGNNPolicy(encoder=_Heat(), env_name="tsp"), best_of="multistart"))
+        out.append(_e("NARGNN(stub encoder)", "tsp", lambda: NARGNNPolicy(encoder=_Heat(), env_name="tsp"), best_of="multistart", quick=True))
     except Exception:
         pass
     return [e for e in out if e["quick"] or not quick]
@@ -274,8 +279,10 @@ def run(tier, seed):
             if entry["prep"] is not None:
                 policy = entry["prep"](policy)
             tdg = env.generator(batch_size=[n_inst])
+            if entry["optional"]:
+                decode(policy, env, env.reset(tdg[0:2].clone()), "greedy", kind)
         except Exception as e:
-            skipped.append("%s/%s: %s" % (pname, ename, str(e)[:80]))
+            skipped.append("%s/%s: %s: %s" % (pname, ename, type(e).__name__, str(e)[:80]))
             continue
         comps = [[i, i, i] for i in range(n_inst)]
         comps += [[i, (i + 1) % n_inst] for i in range(n_inst)] + [[(i + 1) % n_inst, i] for i in range(n_inst)]
